@@ -223,6 +223,9 @@ func (e *Env) conformingAttrs(r *rand.Rand, el string, used map[string]bool) [][
 		var v string
 		if ru.Re == "" {
 			v = c07PlainValues[r.Intn(len(c07PlainValues))]
+			if wk, ok := gen.WellKnownAttrValue(r, k); ok && r.Intn(3) == 0 && !managedAttr(sp, el, k) {
+				v = wk // a keyword HTML defines for this attribute (target=_blank, type=application/json, ...)
+			}
 			used["unpatterned:"+scope] = true
 		} else {
 			good, _ := gen.Pools(ru.Re)
@@ -263,7 +266,7 @@ func (e *Env) conformingAttrs(r *rand.Rand, el string, used map[string]bool) [][
 		}
 	}
 	if sp.DataAttrs && r.Intn(4) == 0 {
-		out = append(out, [2]string{gen.Pick(r, []string{"data-x", "data-foo-bar", "data-a1", "data-é"}), c07PlainValues[r.Intn(len(c07PlainValues))]})
+		out = append(out, [2]string{gen.Pick(r, []string{"data-x", "data-foo-bar", "data-a1", "data-é", "data-a:b", "data-x.y", "data-1", "data-a_b", "data-x:y:z", "data-xm", "data-a--b", "data-ü:ö"}), c07PlainValues[r.Intn(len(c07PlainValues))]})
 		used["data-attribute"] = true
 	}
 	return out
